@@ -1,0 +1,27 @@
+//go:build vsched
+
+package cache
+
+import "github.com/ovn-org/libovsdb/verifshim/vsync"
+
+// Scheduler hooks (build tag "vsched", used together with the vsync overlay):
+// they make the dispatcher goroutine and its channel receive visible to the
+// controlled scheduler.
+
+func verifSpawn()      { vsync.Spawn() }
+func verifThreadDone() { vsync.ThreadDone() }
+
+// verifYieldRecv: the dispatcher is runnable when an event is queued or the stop channel is closed.
+func verifYieldRecv(events chan *event, stop <-chan struct{}) {
+	vsync.Yield("events.recv", func() bool {
+		if len(events) > 0 {
+			return true
+		}
+		select {
+		case <-stop:
+			return true
+		default:
+			return false
+		}
+	})
+}
